@@ -52,6 +52,10 @@ def render_ready(case):
         for it in its:
             if it["kind"] == "fn":
                 it["body"] = [render_let(x) if isinstance(x, dict) and "let" in x else x for x in it.get("body", [])]
+        for k, it in enumerate(its):
+            if it["kind"] in ("struct", "enum") and it.get("derive_lines") is not None:
+                plain = dict(it, derives=[])
+                its[k] = {"kind": "raw", "text": "\n".join(list(it["derive_lines"]) + [pg.render_item(plain)])}
     return c
 
 
@@ -93,7 +97,15 @@ def sx_ty(t):
     return ["p", list(t["segs"]), t["name"], bool(t["args"] or t.get("lt")), [sx_ty(a) for a in t["args"]]]
 
 
+DERIVE_LINE = re.compile(r"^#\s*\[\s*derive\s*\(")
+
+
 def is_serde(it):
+    """struct_parser.rs should_include: some attribute whose path is `derive` and whose token text contains
+    Serialize or Deserialize (a substring test: serde::Serialize, SerializeDisplay count; a derive inside
+    cfg_attr(..) does not, its path is cfg_attr). `derive_lines`: the attributes spelled out verbatim."""
+    if it.get("derive_lines") is not None:
+        return any(DERIVE_LINE.match(l.strip()) and ("Serialize" in l or "Deserialize" in l) for l in it["derive_lines"])
     return any(("Serialize" in d) or ("Deserialize" in d) for d in it.get("derives", []))
 
 
@@ -539,4 +551,65 @@ def layout_cases():
                      rel: [st("ReleaseInfo", [("assets", P("Vec", P("Asset")))]), st("Asset", [("name", P("String"))]),
                            st("ReleaseRequest", [("tag", P("String"))]), st("ReleaseNote", [("text", P("String"))])]}
             out.append(("layout/%s" % rel, project(None, files=files)))
+    return out
+
+
+# ----------------------------------------------------------------------------- project-defined types with special-looking names
+
+SPECIAL_NAMES = ["PathBuf", "Path", "OsString", "Duration", "SystemTime", "Instant", "Uuid", "Url", "DateTime", "Utc", "Value", "Bytes",
+                 "Decimal", "NaiveDate", "Date", "Map", "Set", "Record", "Promise", "Array", "Error", "URL", "Object", "Function", "Symbol",
+                 "Str", "Bool", "Number", "Int", "Unit", "Channel", "Result", "Option", "Vec2", "HashMapper", "State2", "Window2", "Event",
+                 "UnlistenFn", "Params", "Schema", "Types", "Z"]
+
+
+def special_name_cases():
+    """A serde struct / enum the project defines itself under a name some layer might treat specially
+    (std / ecosystem types, TypeScript globals, primitive look-alikes, tool-internal names), unmapped,
+    used at every site kind."""
+    out = []
+    for nm in SPECIAL_NAMES:
+        for as_enum in (False, True):
+            leaf = en(nm) if as_enum else st(nm, [("minutes", P("i32")), ("seconds", P("i32"))])
+            t = P(nm)
+            items = [leaf, st("Holder" + ("E" if as_enum else "S"), [("slot", t), ("many", P("Vec", t)), ("by_key", P("HashMap", P("String"), t))]),
+                     fn("take_it", [("arg", t), ("opt", P("Option", t))], None),
+                     fn("give_it", [], t), fn("give_many", [], P("Result", P("Vec", t), P("String"))),
+                     fn("hold_it", [("h", P("Holder" + ("E" if as_enum else "S")))], None),
+                     fn("stream_it", [("on_msg", P("Channel", t))], None),
+                     fn("fire_it", [APP, ("pl", t)], None, [emit("fired", ["var", "pl"])], command=False)]
+            out.append(("name/%s/%s" % (nm, "enum" if as_enum else "struct"), project(items)))
+    return out
+
+
+# ----------------------------------------------------------------------------- spellings of the derive attribute
+
+DERIVE_SPELLINGS = {
+    "plain": ["#[derive(Serialize, Deserialize)]"],
+    "serde-path": ["#[derive(serde::Serialize, serde::Deserialize)]"],
+    "leading-colons": ["#[derive(::serde::Serialize, ::serde::Deserialize)]"],
+    "serde-derive-path": ["#[derive(serde_derive::Serialize, serde_derive::Deserialize)]"],
+    "only-serialize": ["#[derive(Serialize)]"],
+    "only-deserialize": ["#[derive(Deserialize)]"],
+    "only-path-deserialize": ["#[derive(Debug, serde::Deserialize)]"],
+    "split-attributes": ["#[derive(Debug, Clone)]", "#[derive(Serialize)]", "#[derive(Deserialize)]"],
+    "serde-in-second-attribute": ["#[derive(Debug, Clone, PartialEq)]", "#[allow(dead_code)]", "#[derive(serde::Serialize)]"],
+    "spaces-and-trailing-comma": ["#[derive( Serialize , Deserialize , )]"],
+    "spaced-brackets": ["# [ derive ( Serialize,Deserialize ) ]"],
+    "others-around": ["#[derive(Debug, Serialize, PartialEq, Eq, Deserialize, Clone, Default)]"],
+    "multi-line": ["#[derive(\n    Debug,\n    serde::Serialize,\n    serde::Deserialize,\n)]"],
+}
+
+
+def derive_spelling_cases():
+    """A struct and an enum whose serde derive is spelled in a legal, less common way, used as
+    parameter, return, field and event payload."""
+    out = []
+    for label, lines in DERIVE_SPELLINGS.items():
+        s1 = dict(st("Release", [("tag", P("String")), ("kind", P("ReleaseKind"))]), derive_lines=list(lines))
+        e1 = dict(en("ReleaseKind", ("Stable", "Beta")), derive_lines=list(lines))
+        items = [s1, e1, st("Catalog", [("items", P("Vec", P("Release"))), ("default_kind", P("ReleaseKind"))]),
+                 fn("publish", [("r", P("Release")), ("k", P("Option", P("ReleaseKind")))], P("Catalog")),
+                 fn("latest", [], P("Option", P("Release"))),
+                 fn("notify_release", [APP, ("r", P("Release"))], None, [emit("released", ["var", "r"])], command=False)]
+        out.append(("derive/%s" % label, project(items)))
     return out
